@@ -406,7 +406,7 @@ def run(ctx: core.Check):
     from pyuncertainnumber.pba.aggregation import envelope, imposition
     from pyuncertainnumber.pba.operation import convert
     fams = gen_families(ctx)
-    built, reqs, meta = [], [], []
+    built, reqs = [], []
     n5 = 0
     for stream, ops in fams:
         objs = [build(d) for d in ops]
@@ -642,4 +642,14 @@ def replay(obj):
         if order:
             print(name, "impl (order %s):" % order, json.dumps(js(call(fn, *[objs[i] for i in order]))))
         print(name, "model:", " | ".join(json.dumps(js(parse_res(x))) if x != "=" else "=" for x in rep.split(" | ")))
+    item = case.get("item")
+    if item:
+        from pyuncertainnumber.pba.operation import convert
+        if isinstance(item[0], list):       # [item, container] among the operands
+            it, cont = build(item[0]), build(item[1])
+            cont = cont if item[1][0] == "I" else convert(cont)
+            print("item in container impl:", call_in(it, cont))
+        else:                               # an operand against the envelope of the family
+            e = call(envelope, *objs)
+            print("operand", json.dumps(item), "in envelope impl:", call_in(build(item), envelope(*objs)) if e[0] != "err" else e)
     return 0
